@@ -411,14 +411,28 @@ def run_case(spec):
         other = []
         for i, (h, s) in enumerate(fa):
             if i % 3 == 0:
-                other.append((f'ENSTX{i:04d}|SNV-1-A-T|1', s))     # same sequence, different entry
+                r_ = rng.random()
+                e0 = h.split(' ')[0]
+                if r_ < 0.5:
+                    other.append((f'ENSTX{i:04d}|SNV-1-A-T|1', s))     # same sequence, different entry
+                elif r_ < 0.8:
+                    # ... an entry of which the original is a string PREFIX (same fields, running index 1 -> 12), or
+                    other.append((e0 + str(rng.randint(0, 9)), s))
+                    counters['merge_prefix_entries'] = counters.get('merge_prefix_entries', 0) + 1
+                else:
+                    # ... one that is a string SUFFIX-extension at the front (transcript id with one more leading character)
+                    other.append(('X' + e0, s))
+                    counters['merge_prefix_entries'] = counters.get('merge_prefix_entries', 0) + 1
             elif i % 2 == 1:
                 other.append((h, s))
         for name, recs in (('h1', half), ('h2', other)):
             with open(f'{wd}/{name}.fasta', 'w') as fh:
                 for h, s in recs:
                     fh.write(f'>{h}\n{s}\n')
-        m = ns(command='mergeFasta', input_path=[Path(wd) / 'h1.fasta', Path(wd) / 'h2.fasta'],
+        in2 = [Path(wd) / 'h1.fasta', Path(wd) / 'h2.fasta']
+        if rng.random() < 0.5:
+            in2.reverse()          # the union must not depend on the order of the inputs
+        m = ns(command='mergeFasta', input_path=in2,
                output_path=Path(wd) / 'merged2.fasta', dedup_header=False)
         with drivers.quiet():
             merge_fasta(m)
